@@ -121,7 +121,7 @@ class Table:
         for n, k, d in params:
             default = VARIADIC_DEFAULT.get(k, d)
             ps.append(Obj(self.pcls, {"name": n, "kind": self.kind[k], "default": default, "annotation": None, "docstring": None, "function": None}))
-        plist = Obj(self.pscls, {"_params": ps})
+        plist = self.it._construct(self.pscls, ps, {})  # built by the container's own constructor: whatever state it keeps is there
         return Obj(self.fcls, {"name": "f", "parameters": plist, "returns": None, "path": "m.f"}, label="f")
 
     def yields(self, old: tuple[Spec, ...], new: tuple[Spec, ...]) -> list[tuple[str, Obj | None, Obj | None]]:
@@ -209,6 +209,71 @@ def run(prog: Program, ctx: Ctx) -> None:  # noqa: PLR0912,PLR0915
     ctx.analysed["identity_pairs"] = n_ident
     ctx.expect_min("Rd", n_break, 60)
     ctx.expect_min("Ra", n_ident, 5)
+
+    # ------------------------------------------------------------------ the container the comparison looks parameters up in
+    ctx.rule("Rf", "Parameters answers `name in params` and `params[name]` from its current contents after every history of up to three additions, "
+                   "replacements and deletions (extensions edit signatures through it before the comparison runs)")
+    import itertools as _it
+
+    pcont = prog.cls("_griffe.models.Parameters")
+    itp = tbl.it
+
+    def mkp(n_: str) -> Obj:
+        return Obj(tbl.pcls, {"name": n_, "kind": tbl.kind["positional_or_keyword"], "default": None, "annotation": None, "docstring": None, "function": None}, label=n_)
+
+    def meth_(o: Obj, nm: str):
+        return prog.lookup_method(o.cls, nm)[0]
+
+    ops_ = [("look a", None), ("look session", None), ("del session", None), ("del a", None), ("add session", None), ("add z", None), ("set a", None)]
+    n_hist = 0
+    bad_seen: set[str] = set()
+    for hist in _it.chain(_it.product(ops_, repeat=2), _it.product(ops_, repeat=3)):
+        cont = itp._construct(pcont, [mkp("a"), mkp("session")], {})
+        model = ["a", "session"]
+        problem = None
+        labels_ = [h_[0] for h_ in hist]
+        try:
+            for lab, _x in hist:
+                verb, nm_ = lab.split(" ")
+                if verb == "look":
+                    itp.call(meth_(cont, "__contains__"), cont, nm_)
+                elif verb == "del":
+                    if nm_ not in model:
+                        break
+                    itp.call(meth_(cont, "__delitem__"), cont, nm_)
+                    model.remove(nm_)
+                elif verb == "add":
+                    if nm_ in model:
+                        break
+                    itp.call(meth_(cont, "add"), cont, mkp(nm_))
+                    model.append(nm_)
+                elif verb == "set":
+                    itp.call(meth_(cont, "__setitem__"), cont, nm_, mkp(nm_))
+                    if nm_ not in model:
+                        model.append(nm_)  # setting a name that is not there appends it
+                for probe in ("a", "session", "z"):
+                    has = itp.truth(itp.call(meth_(cont, "__contains__"), cont, probe))
+                    try:
+                        got_p = itp.call(meth_(cont, "__getitem__"), cont, probe)
+                        found = isinstance(got_p, Obj) and got_p.attrs.get("name") == probe
+                    except Raised as r:
+                        found = False if r.exc == "KeyError" else f"raises {r.exc}"
+                    if has != (probe in model) or found != (probe in model):
+                        problem = f"after {labels_[:labels_.index(lab) + 1]}: `{probe} in params` is {has}, params[{probe!r}] {'found' if found is True else found}; the container holds {model}"
+                        break
+                if problem:
+                    break
+        except Raised as r:
+            problem = f"{labels_} raises {r.exc}"
+        n_hist += 1
+        if problem:
+            cls_k = problem.split(": ", 1)[-1][:60]
+            if cls_k in bad_seen:
+                continue
+            bad_seen.add(cls_k)
+        ctx.ob("Rf", f"container|{' ; '.join(labels_)}" if not problem else f"container-class|{problem.split(': ', 1)[-1][:60]}", problem is None,
+               problem or f"after {labels_}: membership and lookup agree with the contents", where(meth_(itp._construct(pcont, [], {}), "__getitem__")))
+    ctx.expect_min("Rf", n_hist, 300)
 
     # ------------------------------------------------------------------ returns table
     ctx.rule("Re", "_returns_are_compatible: None -> anything is compatible, anything -> None is not")
